@@ -1,5 +1,7 @@
 mod common;
+mod corpus;
 mod e1;
+mod e2;
 mod e4;
 mod subjects;
 
@@ -35,6 +37,7 @@ fn main() {
                 match id.as_str() {
                     "C08" | "C05" => e4::replay_cmd(&ctx, &id, &file),
                     "C09" | "C10" | "C16" => e1::replay_cmd(&ctx, &id, &file),
+                    "C01" | "C02" => e2::replay_cmd(&ctx, &id, &file),
                     _ => inconclusive("replay not implemented for this property"),
                 }
             }
@@ -44,6 +47,8 @@ fn main() {
             }
             let ctx = Ctx::new(&tier);
             match id.as_str() {
+                "C01" => e2::c01(&ctx),
+                "C02" => e2::c02(&ctx),
                 "C08" => e4::c08(&ctx),
                 "C09" => e1::c09(&ctx),
                 "C10" => e1::c10(&ctx),
